@@ -17,25 +17,25 @@ CHECKS = {
  "C04": ("exploration", "A", "runtime monitoring: differential oracle over per-simulator (time, inputs) sequences of many runs of one scenario (schedules incl. bounded-exhaustive DFS, start order, lazy/cache/debug, remote processes)",
          "No model: any difference between two runs of one scenario (sequences, or a run failing where the reference completes) is a violation. One open known finding (sub-time data path) classified per differing step; flat scenarios cannot reach it and amplify any difference.", "3/C04"),
  "C06": ("exploration", "C", "runtime monitoring: contract on World.run() (ScenarioError vs. first step, named cycle) against a brute-force cycle enumerator",
-         "All connection multigraphs on 1-2 simulators x 5 group placements exhaustively, 3 simulators exhaustively in the thorough tier, 4-6 sampled.", "5/C06"),
+         "All connection multigraphs (plain, shifted, weak, weak+shifted, async, shifted+async) on 1-2 simulators x 5 group placements exhaustively, 3 simulators exhaustively in the thorough tier, 4-6 sampled.", "5/C06"),
  "C08": ("exploration", "C", "runtime contracts on the real TieredInterval/TieredTime operators against a functional model, exhaustive over bounded shapes; contracts on the minimum delays the real setup caches for generated scenarios",
          "Every ordered pair of equal shape (length <= 3, tiers 0..2/3): trichotomy, antisymmetry, agreement of < with the pointwise order for every departure time, transitivity, action law, associativity.", "5/C08"),
  "C11": ("exploration", "C", "runtime monitoring: decision-table contract on World.connect() plus starved-source runs; group scoping via step-set monitors with path-identified groups",
-         "Exhaustive decision table over attr kinds x connection kinds x initial data x placements; rejected pairs followed by a run that shows no data-flow/wait; sibling-group scenarios under the C02/C01 monitors.", "5/C11"),
+         "Exhaustive decision table over attr kinds x connection kinds x initial data x placements (every third case also with async_requests=True in the refused call); rejected pairs followed by a run that shows no data-flow/wait; equally named models with other attributes in 12 call orders; with-blocks of World.group() left by exceptions; sibling-group scenarios under the C02/C01 monitors.", "5/C11"),
  "C12": ("exploration", "C", "runtime contracts on parse_attrs / world.start() / OutSet operators against a membership model, exhaustive over a small universe",
          "All descriptions over a 2 (thorough: 3) name universe x any_inputs x 3 types; world.start()+connect() through a meta-mirroring simulator; all operand pairs of the set algebra.", "5/C12"),
  "C18": ("exploration", "C", "runtime monitoring: counting oracle over recorded World.connect calls of the bulk helpers",
-         "All admissible sizes up to 12x6 (thorough 24x10) x caps x 50 (500) seeds.", "5/C18"),
+         "All admissible sizes up to 12x6 (thorough 24x10) x caps x 50 (500) seeds, plus requests just beyond the capacity (must be refused), sources inside the destination set, and a sample on the real World.", "5/C18"),
  "C09": ("exploration", "A", "runtime monitoring: loop-length arithmetic over model labels, outcome and error text of run()",
          "All (N, M) around the bound for canonical 2/3-member weak loops in 5 placements under rotating schedules, non-settling loops, generated multi-weak scenarios (envelope only).", "3/C09"),
  "C13": ("fault_enumeration", "A", "runtime monitoring with fault injection: every malformed reply value x step index x simulator position; expected rejection naming the simulator",
          "Enumerates (simulator, step index, malformed value) over generated scenarios; checks error text, no further request to the offender, consistent step set of everybody.", "3/C13"),
- "C14": ("fault_enumeration", "B", "runtime monitoring with fault injection over real simulator processes: every request index x {process exit, exception, connection abort}; containment checklist (processes, finalize counts, pending tasks at loop.close(), ResourceWarnings)",
-         "Enumerates every (simulator, request index, kind) of a small catalogue with remote/in-process mixes, old-API simulators and in-flight asynchronous requests; 'stop' observed on the wire; hangs judged only if reproduced twice. Second part (engine A): generated scenarios in-process under the controlled loop, every request index failing early and late with other simulators in flight, tasks pending at loop.close() snapshotted.", "4/C14"),
+ "C14": ("fault_enumeration", "B", "runtime monitoring with fault injection over real simulator processes: every request index x {process exit, exception, connection abort, process exit while idle}; containment checklist (processes, finalize counts, pending tasks at loop.close(), ResourceWarnings)",
+         "Enumerates every (simulator, request index, kind) of a small catalogue with remote/in-process mixes, old-API simulators and in-flight asynchronous requests; 'stop' observed on the wire; hangs judged only if reproduced twice. Second part (engine A): generated scenarios in-process under the controlled loop, every request index failing early and late with other simulators in flight, tasks pending at loop.close() snapshotted. Third part: ordinary (non-generator) in-process simulators failing with 9 exception classes incl. StopIteration at every request index. One open known finding (connection reset while idle: the installed mosaik_api_v3 channel signals nothing), matched only by the witness of where every task waits.", "4/C14"),
  "C15": ("exploration", "B", "runtime monitoring: requests recorded by stub simulators (in-process v1/v2/v3 signatures, raw-socket process) against the version table; differential 2.x vs 3.0",
-         "All version strings x explicit api_version x transport x type present/absent; failing old simulators, same-named classes, extra methods, repeated starts from one entry.", "4/C15"),
+         "All version strings x explicit api_version (equal, different, minor different, prefix of the announced one, major only) x transport x type present/absent; failing old simulators, same-named classes, extra methods, repeated starts from one entry.", "4/C15"),
  "C16": ("exploration", "A", "runtime monitoring: exactly-once history check of set_data values with unique ids; ordering oracle; refusal of unauthorised requests",
-         "Generated agent scenarios (ratios, 1-3 agents, sparse writes, groups, sub-steps, debug mode) under controlled schedules plus a sample over real processes.", "3/C16"),
+         "Generated agent scenarios (ratios, 1-3 agents with 1-2 agent entities per set_data call, sparse writes, first step of the controlled simulator after 0, groups, sub-steps, debug mode; requests without connection, without the flag, towards unknown simulator ids) under controlled schedules plus a sample over real processes.", "3/C16"),
  "C17": ("exploration", "A", "runtime monitoring on a virtual clock: pacing arithmetic, too-slow reports, rt_strict differential, injected set_event",
          "Virtual clock makes timing deterministic; dyadic factors. One open known finding (consumers one slot late and reported too slow).", "3/C17"),
  "C10": ("exploration", "A", "runtime monitoring: ordering oracle (producer begin vs. consumers' outstanding steps), lazy_stepping=True",
